@@ -80,6 +80,30 @@ pub trait ParallelIterator: Sized + Send {
         }
     }
 
+    /// `init` is called as often as the pool likes (here: once per pool task
+    /// that takes part); the value is shared by the items that task happens to
+    /// process, in the order it processes them.
+    fn map_init<F, INIT, T, R>(self, init: INIT, map_op: F) -> MapInit<Self, INIT, F>
+    where
+        F: Fn(&mut T, Self::Item) -> R + Sync + Send,
+        INIT: Fn() -> T + Sync + Send,
+        R: Send,
+    {
+        MapInit {
+            base: self,
+            init,
+            f: map_op,
+        }
+    }
+
+    fn for_each_init<OP, INIT, T>(self, init: INIT, op: OP)
+    where
+        OP: Fn(&mut T, Self::Item) + Sync + Send,
+        INIT: Fn() -> T + Sync + Send,
+    {
+        self.map_init(init, op).drive::<(), _>(|_, _, _| {});
+    }
+
     fn inspect<OP>(self, inspect_op: OP) -> Inspect<Self, OP>
     where
         OP: Fn(&Self::Item) + Sync + Send,
@@ -488,6 +512,73 @@ where
             let mut t = init.clone();
             g(i, f(&mut t, x), out)
         })
+    }
+}
+
+pub struct MapInit<I, INIT, F> {
+    base: I,
+    init: INIT,
+    f: F,
+}
+
+/// Per-task states of a `map_init`; everything runs on one OS thread, so the
+/// states never really cross threads.
+struct TaskStates<T>(std::sync::Mutex<std::collections::HashMap<usize, T>>);
+unsafe impl<T> Sync for TaskStates<T> {}
+unsafe impl<T> Send for TaskStates<T> {}
+
+impl<T> TaskStates<T> {
+    fn take(&self, k: usize) -> Option<T> {
+        self.0.lock().unwrap().remove(&k)
+    }
+    fn put(&self, k: usize, v: T) {
+        self.0.lock().unwrap().insert(k, v);
+    }
+}
+
+impl<I, INIT, T, F, R> ParallelIterator for MapInit<I, INIT, F>
+where
+    I: ParallelIterator,
+    INIT: Fn() -> T + Sync + Send,
+    F: Fn(&mut T, I::Item) -> R + Sync + Send,
+    R: Send,
+{
+    type Item = R;
+    fn drive<R2, G>(self, g: G) -> Vec<Vec<R2>>
+    where
+        R2: Send,
+        G: Fn(usize, R, &mut Vec<R2>) + Sync + Send,
+    {
+        let f = self.f;
+        let init = self.init;
+        let states: TaskStates<T> = TaskStates(std::sync::Mutex::new(std::collections::HashMap::new()));
+        self.base.drive(move |i, x, out| {
+            let me: usize = shuttle::current::get_current_task().map(usize::from).unwrap_or(0);
+            // take the state out while the user closure runs (it may yield)
+            let taken = states.take(me);
+            let mut st = match taken {
+                Some(s) => s,
+                None => init(),
+            };
+            let r = f(&mut st, x);
+            states.put(me, st);
+            g(i, r, out)
+        })
+    }
+    fn opt_len(&self) -> Option<usize> {
+        self.base.opt_len()
+    }
+}
+
+impl<I, INIT, T, F, R> IndexedParallelIterator for MapInit<I, INIT, F>
+where
+    I: IndexedParallelIterator,
+    INIT: Fn() -> T + Sync + Send,
+    F: Fn(&mut T, I::Item) -> R + Sync + Send,
+    R: Send,
+{
+    fn len(&self) -> usize {
+        self.base.len()
     }
 }
 
